@@ -246,6 +246,19 @@ def sine_job(c, x, nyq_scale):
     return {"x": x, "amp": math.hypot(w["A"], w["B"]), "rms": float(w["rms"]), "out": info["r"]["out"], "n": N}
 
 
+RECIPE_PHASE = {50: 0x00, 25: 0x10, 100: 0x20, 0: 0x30}     # soxr.h: SOXR_LINEAR_PHASE, SOXR_INTERMEDIATE_PHASE, SOXR_MAXIMUM_PHASE, SOXR_MINIMUM_PHASE
+
+
+def cfg_for(job, p):
+    """the configuration of one phase setting of a job: by q_spec.phase_response, or (job['via_recipe']) by the recipe's phase flag"""
+    c0 = job["cfg"]
+    if p is None:
+        return dict(c0)
+    if job.get("via_recipe"):
+        return dict(c0, recipe=(int(c0["recipe"]) & ~0x30) | RECIPE_PHASE[p])
+    return dict(c0, phase=p)
+
+
 def measure(job):
     """everything about one base configuration, for all its phase settings"""
     c0, phases, proto_cap = job["cfg"], job["phases"], job["proto_cap"]
@@ -253,7 +266,7 @@ def measure(job):
     try:
         infos = {}
         for p in phases:
-            c = dict(c0) if p is None else dict(c0, phase=p)
+            c = cfg_for(job, p)
             info, _ = P.run(c)
             if "error" in info or "plan" not in info:
                 out["skipped"] = info.get("error", "not the constant-rate engine")
@@ -262,7 +275,7 @@ def measure(job):
         out["plans"] = {p: P.plan_strs(infos[p]) for p in phases}
         q = infos[phases[0]]["q"]
         for p in phases:
-            c = dict(c0) if p is None else dict(c0, phase=p)
+            c = cfg_for(job, p)
             out["phase"][p] = {"plan": P.plan_strs(infos[p]), "engine": infos[p].get("engine", ""), "q": infos[p]["q"],
                                "sine": [sine_job(c, x, float(q["pb"])) for x in job["tones"]]}
         fr = P.exact_fraction(c0)
@@ -271,12 +284,12 @@ def measure(job):
             L, M = fr
             W = 0
             for p in phases:
-                c = dict(c0) if p is None else dict(c0, phase=p)
+                c = cfg_for(job, p)
                 lo, hi = P.support(c, L / M)
                 W = max(W, lo, hi)
             pr = {}
             for p in phases:
-                c = dict(c0) if p is None else dict(c0, phase=p)
+                c = cfg_for(job, p)
                 r = P.prototype(c, L, M, infos[p], W, max_phases=proto_cap)
                 if isinstance(r, dict):
                     pr = None
@@ -414,6 +427,15 @@ def make_jobs(ctx):
             c0["min"], c0["large"] = 8 + rng.below(8), 8 + rng.below(13)      # log2_large_dft_size <= 12: dft_stage_init pads (former F5 region)
         up = float(orr) / float(ir)
         jobs.append({"cfg": c0, "phases": phases, "tones": [0.11, 0.47, 0.93] if up < 40 or not ctx.quick else [0.47],
+                     "proto_cap": (4 if up > 20 else 16) if ctx.quick else (40 if up > 20 else 160)})
+    # the phase chosen by the RECIPE's flags (soxr_quality_spec(recipe | SOXR_MINIMUM_PHASE ...)), alone and combined with the other recipe
+    # flag of the same nibble (SOXR_STEEP_FILTER): same comparisons, with a tone close to the end of the pass-band
+    for i in range(6 if ctx.quick else 120):
+        ir, orr = rng.choice(BASE_RATIOS[:9]) if rng.chance(.6) else cr.gen_rates(rng, max_up=60.0, max_down=100.0)
+        rec = rng.choice([2, 3, 4, 4, 5, 6]) | (0x40 if rng.chance(.6) else 0)
+        c0 = P.mkcfg(float(ir), float(orr), rec, rng.choice([0, 0, 2]), rng.below(2))
+        up = float(orr) / float(ir)
+        jobs.append({"cfg": c0, "phases": [50, 0, 100, 25], "via_recipe": True, "tones": [0.47, 0.97] if up < 40 else [0.97],
                      "proto_cap": (4 if up > 20 else 16) if ctx.quick else (40 if up > 20 else 160)})
     return jobs
 
